@@ -26,11 +26,11 @@ type nsCase struct {
 }
 
 type nsReplay struct {
-	Engine string       `json:"engine"`
-	Text   string       `json:"text"`
-	Input  *nsgen.Input `json:"input"`
-	Observed interface{} `json:"observed,omitempty"`
-	Expected interface{} `json:"expected,omitempty"`
+	Engine   string       `json:"engine"`
+	Text     string       `json:"text"`
+	Input    *nsgen.Input `json:"input"`
+	Observed interface{}  `json:"observed,omitempty"`
+	Expected interface{}  `json:"expected,omitempty"`
 }
 
 func (c *nsCase) replay(obs, exp interface{}) nsReplay {
@@ -120,13 +120,13 @@ func forEachCase(rep *evid.Reporter, sp *nsgen.Space, bal []string, st *nsStats,
 
 func (st *nsStats) coverage(sp *nsgen.Space, rule string) evid.Coverage {
 	return evid.Coverage{
-		"evaluations":         int(st.cases),
-		"programs":            int(st.programs),
-		"distinct_nontrivial": int(st.ntCount),
-		"rule":                rule,
-		"samples":             st.samples.Got,
-		"exhaustive":          true,
-		"space_blocks":        sp.Describe(),
+		"evaluations":          int(st.cases),
+		"programs":             int(st.programs),
+		"distinct_nontrivial":  int(st.ntCount),
+		"rule":                 rule,
+		"samples":              st.samples.Got,
+		"exhaustive":           true,
+		"space_blocks":         sp.Describe(),
 		"impl_outcome_classes": st.classes.M,
 	}
 }
